@@ -97,6 +97,17 @@ func (m *Plugin) generateSingleFile(data *codegen.Data) error {
 		file.name = data.Config.Resolver.Filename
 		file.imports = rewriter.ExistingImports(file.name)
 		file.RemainingSource = rewriter.RemainingSource(file.name)
+		// The root struct is emitted again by the template (HasRoot). In the unedited form
+		// written by a previous run it is not leftover source.
+		rootDecl := "type " + data.Config.Resolver.Type + " struct{}"
+		lines := strings.Split(file.RemainingSource, "\n")
+		kept := lines[:0]
+		for _, line := range lines {
+			if strings.TrimSpace(line) != rootDecl {
+				kept = append(kept, line)
+			}
+		}
+		file.RemainingSource = strings.TrimSpace(strings.Join(kept, "\n"))
 	}
 
 	resolverBuild := &ResolverBuild{
